@@ -29,7 +29,9 @@ AcceptIn(r) == r.cert /\ r.skiLen = 20 /\ r.binding = "ownKey" /\ r.tls >= 12 /\
 
 \* what the dialled server presents: the dialled device's certificate; another key with the dialled SKI written into it; another
 \* device's certificate; no SKI; "ownLen": a certificate whose SKI has n # 20 bytes, and exactly that SKI (2n hex digits) was dialled
-Presented == {"same", "sameSkiOtherKey", "other", "absent", "ownLen"}
+\* "otherPaired": another device's certificate, and that device is itself paired with this hub (trusted - but it is not the one
+\* that was dialled: a paired device must not pass as another paired device)
+Presented == {"same", "sameSkiOtherKey", "other", "otherPaired", "absent", "ownLen"}
 Outbound == { [dir |-> "out", presented |-> p, len |-> n] : p \in Presented, n \in SkiLens }
 ValidOut(r) == IF r.presented = "ownLen" THEN r.len \notin {0, 20} /\ (FullLens \/ r.len \in Corner) ELSE r.len = 20
 AcceptOut(r) == r.presented = "same"
